@@ -12,8 +12,8 @@ from . import _eval as E
 ID = "C01"
 
 SETS = {
-    "quick": ["U1L_all", "U1K3", "R2K", "P:P0q", "P:P1q", "P:P3q", "P:P4q", "P:P6q"],
-    "thorough": ["U1L_all", "U1K3", "U2K", "S3K4", "P:P0", "P:P1", "P:P3", "P:P4", "P:P6"],
+    "quick": ["U1L_all", "U1K3", "R2K", "P:P0q", "P:P1q", "P:P3q", "P:P4q", "P:P6q", "P:P7q"],
+    "thorough": ["U1L_all", "U1K3", "U2K", "S3K4", "P:P0", "P:P1", "P:P3", "P:P4", "P:P6", "P:P7"],
 }
 WR = {"quick": (2, 2), "thorough": (2, 3)}
 STEP = 40
